@@ -33,6 +33,10 @@ given, or a value a path condition equates with size(); a caller-chosen size aga
 violation (R-C11-6).  A new-expression is a point where the function can be left by an exception: an existing object
 whose owner was already released / changed at that point is a violation (R-C11-2).  A DataView (re)initialiser that takes
 only the data pointer sets the stride to the dense default; leaving the previous stride is a violation (R-C11-5).
+R-C11-5 also decides typed indexing through a member precomputed from the stride: ((const T*)ptr)[index * (stride / sizeof(T))]
+under a test stride % A == 0 is the element at ptr + index*stride only if A is a multiple of sizeof(T).
+  R-C11-8  the destructor of AbstractArray - the interface owning wrappers are handled and destroyed through - is virtual, or not
+           publicly accessible.
 Calls to helpers (private / static members, members another member forwards to, delegating constructors, free
 functions) are followed: their paths are spliced into the caller's path summary, so the rules see the same events
 whether a statement is written in place or moved into a helper.
@@ -1218,6 +1222,79 @@ def check_abstract(ctx, tu, tag=''):
 # ============================================================================================
 #  R-C11-5 : DataView
 # ============================================================================================
+def typed_index_verdict(se, tu, r, f, p, rv, ptr, stride, idx, et, stride_name):
+    """operator[] path that indexes a typed pointer: *((const T*)ptr + index * X), X a member precomputed from the stride.
+    Element arithmetic scales by sizeof(T), so the byte offset is index * X * sizeof(T); with X = stride / sizeof(T) (integer division)
+    under a divisibility test stride % A == 0 that is index * stride exactly when sizeof(T) divides every stride the test lets
+    through, i.e. when A is a multiple of sizeof(T).  Returns None when the path is not of this form."""
+    this = ('this',)
+    if not (isinstance(rv, tuple) and rv[0] == 'deref' and isinstance(rv[1], tuple) and rv[1][0] == 'add' and len(rv[1]) == 3):
+        return None
+    base = [x for x in rv[1][1:] if isinstance(x, tuple) and ((x[0] == 'cast' and x[2] == ptr) or (x == ptr and et.get('size') == 1))]
+    off = [x for x in rv[1][1:] if x not in base]
+    if len(base) != 1 or len(off) != 1:
+        return None
+    o = off[0]
+    if not (isinstance(o, tuple) and o[0] == 'mul' and len(o) == 3 and idx in o[1:]):
+        return None
+    X = [x for x in o[1:] if x != idx][0]
+    if not (isinstance(X, tuple) and X[:2] == ('field', this) and len(X) == 3) or X in (ptr, stride):
+        return None
+    S = et.get('size')
+    # the value every (data, stride) initialiser gives X, as a function of its stride argument
+    defs = set()
+    for g_ in tu.functions.values():
+        if g_.get('recid') != r['id'] or g_['dep'] or tu.cfg(g_) is None or len(g_.get('params', [])) != 2:
+            continue
+        if not (g_.get('ctor') == 'other' or last(strip_targs(g_['q'])) == 'reset'):
+            continue
+        a1 = ('param', 1, g_['params'][1].get('name') or '')
+        try:
+            pieces = []
+            for q in se.paths(g_):
+                vals = {}
+                for e in q.events:
+                    if e.kind in ('store', 'init') and e.place is not None:
+                        vals[e.place] = unver(e.value)
+                if vals.get(stride) != a1 or X not in vals:
+                    return ('und', 'the member `%s` used for typed indexing is not set together with `%s` by %s' % (X[2], stride_name, g_['q']))
+                cs = [(se._subst(unver(c_), {a1: ('STRIDE',)}), pol_) for c_, pol_, _n in q.conds if contains(unver(c_), a1)]
+                pieces.append((tuple(cs), se._subst(vals[X], {a1: ('STRIDE',)})))
+            if len(pieces) == 1 and not pieces[0][0]:
+                defs.add(pieces[0][1])
+            elif len(pieces) == 2 and all(len(pc[0]) == 1 for pc in pieces) and pieces[0][0][0][0] == pieces[1][0][0][0] \
+                    and pieces[0][0][0][1] != pieces[1][0][0][1]:
+                t_ = [pc for pc in pieces if pc[0][0][1]][0]
+                f_ = [pc for pc in pieces if not pc[0][0][1]][0]
+                defs.add(('cond', t_[0][0][0], t_[1], f_[1]))      # the helper that computes it was followed: one value per branch
+            else:
+                return ('und', 'the member `%s` used for typed indexing is computed on %d paths of %s' % (X[2], len(pieces), g_['q']))
+        except Unsupported as e:
+            return ('und', str(e))
+    if len(defs) != 1:
+        return ('und', 'the member `%s` used for typed indexing has %d different definitions' % (X[2], len(defs)))
+    d = defs.pop()
+    nonzero = p.cond_of(('eq', ('const', 0), X)) is False
+    sz = lambda x: isinstance(x, tuple) and ((x[0] == 'sizeof' and x[2] == S) or x == ('const', S))
+    if isinstance(d, tuple) and d[0] == 'cond' and d[3] == ('const', 0) and nonzero:
+        C, Q = d[1], d[2]
+        if isinstance(Q, tuple) and Q[:3] == ('binop', '/', ('STRIDE',)) and sz(Q[3]) and isinstance(C, tuple) and C[0] == 'eq' \
+                and ('const', 0) in C[1:]:
+            m = [x for x in C[1:] if x != ('const', 0)][0]
+            if isinstance(m, tuple) and m[:3] == ('binop', '%', ('STRIDE',)) and (m[3][0] in ('const', 'sizeof')):
+                A = m[3][1] if m[3][0] == 'const' else m[3][2]
+                if isinstance(A, int) and A > 0 and A % S == 0:
+                    return ('ok', 'typed indexing with %s = %s/sizeof(T), used only when %d divides %s: the same address as ptr + index*%s'
+                            % (X[2], stride_name, A, stride_name, stride_name))
+                if isinstance(A, int) and A > 0:
+                    return ('viol', 'typed-index-rounds-stride',
+                            'on the path where `%s` != 0 the element is read at ((const T*)ptr)[index * %s] with %s = %s / sizeof(T) = %s / %d, chosen whenever '
+                            '%s %% %d == 0: for a stride that is a multiple of %d but not of %d the division truncates and element i is read at byte '
+                            'offset i*(%s/%d)*%d instead of i*%s (e.g. %d-byte elements stored every %d bytes)'
+                            % (X[2], X[2], X[2], stride_name, stride_name, S, stride_name, A, A, S, stride_name, S, S, stride_name, S, (S // A + 1) * A))
+    return ('und', 'typed indexing through `%s` (= %s) is not in a recognised form' % (X[2], show(d)))
+
+
 def check_dataview(ctx, tu, tag=''):
     R5 = 'R-C11-5'
     ctx.describe(R5, 'DataView::operator[](i) is *(const T*)(ptr + i*stride) with ptr of byte type on every returning path (a reference into '
@@ -1297,6 +1374,16 @@ def check_dataview(ctx, tu, tag=''):
                         okv = True      # element type is the byte type itself: the cast is the identity
                     if okv:
                         ctx.ok(R5, inst, 'returns %s' % show(rv), loc)
+                        continue
+                    # typed indexing through a derived member: ((const T*)ptr)[index * X] with X precomputed from the stride
+                    tdec = typed_index_verdict(se, tu, r, f, p, rv, ptr, stride, idx, et, sf[0]['name'])
+                    if tdec is not None:
+                        if tdec[0] == 'ok':
+                            ctx.ok(R5, inst, tdec[1], loc)
+                        elif tdec[0] == 'viol':
+                            ctx.violation(R5, inst, tdec[2], loc, key='%s|%s|%s|%s' % (R5, file, pname, tdec[1]))
+                        else:
+                            ctx.undecided(R5, inst, tdec[1], loc)
                         continue
                     # recognised wrong forms
                     why = None
@@ -1598,6 +1685,74 @@ def check_alias_after_realloc(ctx, tu, tag=''):
     ctx.floor(R7 + tag, n, 3, 'OwnedArray<T>::resize(size, const T&) for the instantiated element types')
 
 
+def pattern_dtor(tu, cls):
+    """(access, virtual?) of the destructor as declared in the class template `cls` (implicit: public, not virtual)"""
+    for top in tu.decls:
+        for n in tu.walk(top):
+            if n.get('kind') == 'ClassTemplateDecl' and n.get('name') == cls:
+                for rec in tu.kids(n):
+                    if rec.get('kind') != 'CXXRecordDecl' or not rec.get('completeDefinition'):
+                        continue
+                    acc = 'private' if rec.get('tagUsed') == 'class' else 'public'
+                    for mbr in tu.kids(rec):
+                        if mbr.get('kind') == 'AccessSpecDecl':
+                            acc = mbr.get('access', acc)
+                        elif mbr.get('kind') == 'CXXDestructorDecl' and not mbr.get('isImplicit'):
+                            return acc, bool(mbr.get('virtual'))
+                    return 'public', False
+    return 'public', False
+
+
+def check_polymorphic_destruction(ctx, tu, tag=''):
+    """R-C11-8: AbstractArray is the common interface of wrappers that own storage (a vector, a shared_ptr).  An owning wrapper
+    destroyed through a pointer / reference to the base releases its storage only if the base destructor is virtual; a base
+    destructor that is not publicly accessible (deletion through the base is impossible) is the other correct form."""
+    R8 = 'R-C11-8'
+    ctx.describe(R8, 'the destructor of AbstractArray, the interface the owning wrappers are handled through, is virtual (or not publicly accessible): '
+                     'destroying an OwnedArray / FixedArray / FixedArrayView through the base must release what it owns')
+    m = Model(tu)
+    n = 0
+    allbases = {r['type']: r for r in tu.records.values() if r.get('tmpl') == ABS and not r.get('lambda')}
+    for btype, r in sorted(allbases.items()):
+        inst = short(btype) + tag
+        file = rec_file(tu, r)
+        owning = [w for w in m.wrappers.values() if btype in w.get('bases', []) and m.owners(w) and not w.get('trivial_dtor')]
+        dts = [f for f in tu.functions.values() if f.get('recid') == r['id'] and f.get('dtor')]
+        n += 1
+        if not dts:
+            acc, virt = pattern_dtor(tu, 'AbstractArray')
+            if virt:
+                ctx.ok(R8, inst, 'virtual destructor (declaration)', file)
+                continue
+            if acc in ('protected', 'private'):
+                ctx.ok(R8, inst, 'non-virtual but %s destructor: objects cannot be destroyed through the base' % acc, file)
+                continue
+            if r.get('trivial_dtor') and owning:
+                ctx.violation(R8, inst, 'AbstractArray has a trivial (hence non-virtual, public) destructor but %s own storage: deleting one of them through '
+                              'an AbstractArray pointer runs no derived destructor and leaks / corrupts the owned storage'
+                              % ', '.join(sorted(short(w['type']) for w in owning)), file,
+                              key='%s|%s|AbstractArray|base-destructor-not-virtual' % (R8, file))
+            else:
+                ctx.undecided(R8, inst, 'no destructor entry for the base in the facts', file)
+            continue
+        d = dts[0]
+        if d.get('virt'):
+            ctx.ok(R8, inst, 'virtual destructor; owning subclasses: %s' % sorted(short(w['type']) for w in owning), tu.fn_loc(d))
+        elif d.get('access') in ('protected', 'private'):
+            ctx.ok(R8, inst, 'non-virtual but %s destructor: objects cannot be destroyed through the base' % d.get('access'), tu.fn_loc(d))
+        elif owning:
+            ctx.violation(R8, inst, 'the destructor of AbstractArray is public and not virtual, but %s own storage (%s): an array handled and destroyed '
+                          'through its AbstractArray interface (delete via base pointer, unique_ptr<AbstractArray<T>>) never runs the derived '
+                          'destructor - undefined behaviour, in practice the owned buffer is leaked or freed with the wrong size'
+                          % (', '.join(sorted(short(w['type']) for w in owning)),
+                             ', '.join(sorted({'%s::%s' % (short(w['q']), o[0]) for w in owning for o in m.owners(w)}))), tu.fn_loc(d),
+                          key='%s|%s|AbstractArray|base-destructor-not-virtual' % (R8, file),
+                          path=['%s is a base of %s' % (short(btype), ', '.join(sorted(short(w['type']) for w in owning)))])
+        else:
+            ctx.ok(R8, inst, 'non-virtual destructor, no owning subclass instantiated', tu.fn_loc(d), nontrivial=False)
+    ctx.floor(R8 + tag, n, 3, 'AbstractArray<T> for the instantiated element types')
+
+
 def run(ctx):
     ctx.assume('callers pass (pointer, size) pairs that designate live storage of that many elements; FixedArrayView callers pass '
                'offset + size within the viewed array')
@@ -1616,5 +1771,6 @@ def run(ctx):
         check_abstract(ctx, tu, tag)
         check_dataview(ctx, tu, tag)
         check_alias_after_realloc(ctx, tu, tag)
+        check_polymorphic_destruction(ctx, tu, tag)
     from rkstatic import selftest
     selftest.run(ctx)
